@@ -158,6 +158,18 @@ def ww_at_gamma_singularity(ctx: Ctx) -> None:
                     ctx.violation("ww:gamma-singularity:raises", f"WhalleyWilmott raised {type(e).__name__} at the money at expiry / zero volatility", {"error": repr(e)[:200]})
                     continue
                 ctx.count(("ww-singular", str(dtype), cost, t, v), n=len(prev))
+                # ... and WITHOUT transaction cost the band has no width there either: the strategy is the Black-Scholes delta hedge
+                d0 = EuropeanOption(BrownianStock(cost=0.0, dtype=dtype), strike=1.0)
+                m0 = WhalleyWilmott(d0)
+                try:
+                    out0 = m0(x).reshape(-1)
+                    delta0 = m0.bs(x[..., :-1]).reshape(-1)
+                except Exception as e:
+                    ctx.violation("ww:gamma-singularity:raises", f"WhalleyWilmott (zero cost) raised {type(e).__name__} at the money at expiry / zero volatility", {"error": repr(e)[:200]})
+                else:
+                    if not torch.equal(out0, delta0) or bool(out0.isnan().any()):
+                        ctx.violation("ww:zero-cost:gamma-singularity", "WhalleyWilmott with zero cost is not the Black-Scholes delta hedge at the money at expiry / zero volatility (where gamma is infinite)",
+                                      {"dtype": str(dtype), "time_to_maturity": t, "volatility": v, "output": out0.tolist(), "black_scholes_delta": delta0.tolist()})
                 if not torch.equal(out, prev):
                     ctx.violation("ww:gamma-singularity", "WhalleyWilmott does not keep the previous hedge where the band is infinitely wide (at the money at expiry / zero volatility, positive cost)",
                                   {"dtype": str(dtype), "cost": cost, "time_to_maturity": t, "volatility": v, "previous": prev.tolist(), "output": out.tolist()})
